@@ -1,7 +1,7 @@
 import Tengo.Proofs.JsonAccept
 import Tengo.Proofs.JsonUnquote
 /-!
-C18, "grammar ⇒ decoder": on a text of the grammar the decoder (`value` / `array` / `object` /
+C18, "grammar ⇒ decoder": on a text of the grammar nested at most `maxNestingDepth` deep the decoder (`value` / `array` / `object` /
 `literal` driven by the scanner's opcodes) never reaches a phase panic, does not run out of the fuel
 `decode` gives it, and returns the value the text denotes.
 -/
@@ -239,16 +239,47 @@ theorem next_byte (ps : PS) (σ : List PS) (w : Bytes) (hw : WS w) (p : UInt8) (
     have ha := hw a (by simp)
     exact ⟨a, w ++ p :: rest, rfl, follow_space a ha, by rw [endValue_space ps σ a ha]; simp [goTo]⟩
 
-/-- What `stateBeginValue` does on the first byte of a value. -/
-theorem valStart_begin (σ : List PS) (c : UInt8) (h : ValStart c) :
+/-- What `stateBeginValue` does on the first byte of a value, when an opening bracket or brace finds
+room on the parse stack. -/
+theorem valStart_begin (σ : List PS) (c : UInt8) (h : ValStart c) (hroom : c = 0x7B ∨ c = 0x5B → σ.length < maxNestingDepth) :
     (stateBeginValue σ c).step ≠ .error ∧ (stateBeginValue σ c).op ≠ .skipSpace ∧
     (stateBeginValue σ c).op ≠ .endArray ∧ (stateBeginValue σ c).op ≠ .endObject := by
   obtain ⟨hs, _, _⟩ := valStart_facts c h
   unfold stateBeginValue
   rw [if_neg (by simp [hs])]
   rcases h with rfl | rfl | rfl | rfl | rfl | rfl | rfl | rfl | hd
+  · simp [pushTo_ok _ _ _ _ (hroom (.inl rfl)), goTo]
+  · simp [pushTo_ok _ _ _ _ (hroom (.inr rfl)), goTo]
   all_goals first | (simp [goTo]; done) | skip
+  have hd' := hd
+  simp only [isDigit19, Bool.and_eq_true, decide_eq_true_eq] at hd'
+  have hne : c ≠ 0x7B ∧ c ≠ 0x5B := by
+    refine ⟨?_, ?_⟩ <;> (intro e; subst e; simp at hd')
+  rw [if_neg hne.1, if_neg hne.2]
   (repeat' split) <;> simp_all [goTo]
+
+/-- The first byte of a value nested at most `n` deep is an opening bracket or brace only if `n > 0`. -/
+theorem valD_room {pf : Bytes → UInt64} {n : Nat} {c : UInt8} {t' : Bytes} {v : J} (hv : ValD pf n (c :: t') v)
+    (σ : List PS) (hd : σ.length + n ≤ maxNestingDepth) : c = 0x7B ∨ c = 0x5B → σ.length < maxNestingDepth := by
+  intro hc
+  generalize ht : c :: t' = t at hv
+  cases hv with
+  | null => cases ht; rcases hc with hc | hc <;> exact absurd hc (by decide)
+  | true => cases ht; rcases hc with hc | hc <;> exact absurd hc (by decide)
+  | false => cases ht; rcases hc with hc | hc <;> exact absurd hc (by decide)
+  | num hn =>
+    cases hn with
+    | neg _ => cases ht; rcases hc with hc | hc <;> exact absurd hc (by decide)
+    | zero _ => cases ht; rcases hc with hc | hc <;> exact absurd hc (by decide)
+    | int hd9 _ =>
+      cases ht
+      simp only [isDigit19, Bool.and_eq_true, decide_eq_true_eq] at hd9
+      rcases hc with hc | hc <;> (subst hc; simp at hd9)
+  | str _ => simp only [quote, List.cons_append, List.cons.injEq] at ht; rcases hc with hc | hc <;> (rw [hc] at ht; exact absurd ht.1 (by decide))
+  | arrEmpty _ => omega
+  | arr _ => omega
+  | objEmpty _ => omega
+  | obj _ => omega
 
 theorem orEmpty_start (σ : List PS) (c : UInt8) (h : ValStart c) :
     delta .beginValueOrEmpty σ c = stateBeginValue σ c := by
@@ -257,48 +288,48 @@ theorem orEmpty_start (σ : List PS) (c : UInt8) (h : ValStart c) :
 
 /-! ### the specification of `value` / `arrayLoop` / `objectLoop` on texts of the grammar -/
 
-def SpecNext (pf : Bytes → UInt64) (t : Bytes) (v : J) : Prop :=
+def SpecNext (pf : Bytes → UInt64) (n : Nat) (t : Bytes) (v : J) : Prop :=
   ∀ c0 t', t = c0 :: t' → ∀ (σ : List PS) (c : UInt8) (rest : Bytes) (f : Nat) (d : DState),
-    Follow c → (stateEndValue σ c).step ≠ .error → 2 * t.length ≤ f →
+    σ.length + n ≤ maxNestingDepth → Follow c → (stateEndValue σ c).step ≠ .error → 2 * t.length ≤ f →
     Sees d (stateBeginValue σ c0).step (stateBeginValue σ c0).stack (t' ++ c :: rest) c0 (stateBeginValue σ c0).op →
     ∃ d', value pf f d = .ok v d' ∧ SeesAfter d' σ c rest
 
-def SpecEof (pf : Bytes → UInt64) (t : Bytes) (v : J) : Prop :=
-  ∀ c0 t', t = c0 :: t' → ∀ (σ : List PS) (f : Nat) (d : DState), 2 * t.length ≤ f →
+def SpecEof (pf : Bytes → UInt64) (n : Nat) (t : Bytes) (v : J) : Prop :=
+  ∀ c0 t', t = c0 :: t' → ∀ (σ : List PS) (f : Nat) (d : DState), σ.length + n ≤ maxNestingDepth → 2 * t.length ≤ f →
     Sees d (stateBeginValue σ c0).step (stateBeginValue σ c0).stack t' c0 (stateBeginValue σ c0).op →
     ∃ d', value pf f d = .ok v d'
 
-def SpecVal (pf : Bytes → UInt64) (t : Bytes) (v : J) : Prop := SpecNext pf t v ∧ SpecEof pf t v
+def SpecVal (pf : Bytes → UInt64) (n : Nat) (t : Bytes) (v : J) : Prop := SpecNext pf n t v ∧ SpecEof pf n t v
 
-def SpecElems (pf : Bytes → UInt64) (e : Bytes) (xs : JList) : Prop :=
+def SpecElems (pf : Bytes → UInt64) (n : Nat) (e : Bytes) (xs : JList) : Prop :=
   ∀ (σ : List PS) (rest : Bytes) (f : Nat) (d : DState) (st0 : Step) (l : UInt8) (op0 : Op),
-    (st0 = .beginValue ∨ st0 = .beginValueOrEmpty) → 2 * e.length + 1 ≤ f →
+    σ.length + 1 + n ≤ maxNestingDepth → (st0 = .beginValue ∨ st0 = .beginValueOrEmpty) → 2 * e.length + 1 ≤ f →
     Sees d st0 (.arr :: σ) (e ++ 0x5D :: rest) l op0 →
     ∃ d', arrayLoop pf f d = .ok xs d' ∧
       Sees d' (popTo σ .endArray).step (popTo σ .endArray).stack rest 0x5D .endArray
 
-def SpecMembers (pf : Bytes → UInt64) (m : Bytes) (es : JMems) : Prop :=
+def SpecMembers (pf : Bytes → UInt64) (n : Nat) (m : Bytes) (es : JMems) : Prop :=
   ∀ (σ : List PS) (rest : Bytes) (f : Nat) (d : DState) (st0 : Step) (l : UInt8) (op0 : Op),
-    (st0 = .beginString ∨ st0 = .beginStringOrEmpty) → 2 * m.length + 1 ≤ f →
+    σ.length + 1 + n ≤ maxNestingDepth → (st0 = .beginString ∨ st0 = .beginStringOrEmpty) → 2 * m.length + 1 ≤ f →
     Sees d st0 (.objKey :: σ) (m ++ 0x7D :: rest) l op0 →
     ∃ d', objectLoop pf f d = .ok es d' ∧
       Sees d' (popTo σ .endObject).step (popTo σ .endObject).stack rest 0x7D .endObject
 
 /-- A scalar token: first byte `c0` starts a literal, the tail is a `scanContinue` run to a state
 that hands any `Follow` byte to `stateEndValue`, and `literal()` produces `v` from it. -/
-theorem spec_scalar (pf : Bytes → UInt64) (c0 : UInt8) (t' : Bytes) (v : J) (st1 : Step)
+theorem spec_scalar (pf : Bytes → UInt64) (n : Nat) (c0 : UInt8) (t' : Bytes) (v : J) (st1 : Step)
     (hb : ∀ σ, stateBeginValue σ c0 = goTo st1 σ .beginLiteral)
     (hc : ∀ σ, ∃ st', conts st1 σ t' = some st' ∧ ∀ c, Follow c → delta st' σ c = stateEndValue σ c)
-    (hr : ∀ d', litResult pf c0 t' d' = .ok v d') : SpecVal pf (c0 :: t') v := by
+    (hr : ∀ d', litResult pf c0 t' d' = .ok v d') : SpecVal pf n (c0 :: t') v := by
   constructor
-  · intro c0' t'' he σ c rest f d hf hne hfuel hs
+  · intro c0' t'' he σ c rest f d _ hf hne hfuel hs
     cases he
     rw [hb σ] at hs
     obtain ⟨st', h1, h2⟩ := hc σ
     obtain ⟨d', hd', hl⟩ := literal_next pf c0 t' σ c rest d st1 st' hs h1 (h2 c hf) hne hf.2
     obtain ⟨f', rfl⟩ : ∃ f', f = f' + 1 := ⟨f - 1, by simp at hfuel; omega⟩
     exact ⟨d', by rw [value_literal pf f' d hs.op, hl, hr], hd'⟩
-  · intro c0' t'' he σ f d hfuel hs
+  · intro c0' t'' he σ f d _ hfuel hs
     cases he
     rw [hb σ] at hs
     obtain ⟨st', h1, _⟩ := hc σ
@@ -306,37 +337,38 @@ theorem spec_scalar (pf : Bytes → UInt64) (c0 : UInt8) (t' : Bytes) (v : J) (s
     obtain ⟨f', rfl⟩ : ∃ f', f = f' + 1 := ⟨f - 1, by simp at hfuel; omega⟩
     exact ⟨d', by rw [value_literal pf f' d hs.op, hl, hr]⟩
 
-theorem spec_null (pf : Bytes → UInt64) : SpecVal pf [0x6E, 0x75, 0x6C, 0x6C] .null :=
-  spec_scalar pf 0x6E _ _ .n (fun σ => by simp [stateBeginValue, isSpace])
+theorem spec_null (pf : Bytes → UInt64) (n : Nat) : SpecVal pf n [0x6E, 0x75, 0x6C, 0x6C] .null :=
+  spec_scalar pf n 0x6E _ _ .n (fun σ => by simp [stateBeginValue, isSpace])
     (fun σ => ⟨.endValue, by simp [conts, delta, stateLit, goTo], fun c _ => rfl⟩) (fun d' => by simp [litResult])
 
-theorem spec_true (pf : Bytes → UInt64) : SpecVal pf [0x74, 0x72, 0x75, 0x65] (.bool true) :=
-  spec_scalar pf 0x74 _ _ .t (fun σ => by simp [stateBeginValue, isSpace])
+theorem spec_true (pf : Bytes → UInt64) (n : Nat) : SpecVal pf n [0x74, 0x72, 0x75, 0x65] (.bool true) :=
+  spec_scalar pf n 0x74 _ _ .t (fun σ => by simp [stateBeginValue, isSpace])
     (fun σ => ⟨.endValue, by simp [conts, delta, stateLit, goTo], fun c _ => rfl⟩) (fun d' => by simp [litResult])
 
-theorem spec_false (pf : Bytes → UInt64) : SpecVal pf [0x66, 0x61, 0x6C, 0x73, 0x65] (.bool false) :=
-  spec_scalar pf 0x66 _ _ .f (fun σ => by simp [stateBeginValue, isSpace])
+theorem spec_false (pf : Bytes → UInt64) (n : Nat) : SpecVal pf n [0x66, 0x61, 0x6C, 0x73, 0x65] (.bool false) :=
+  spec_scalar pf n 0x66 _ _ .f (fun σ => by simp [stateBeginValue, isSpace])
     (fun σ => ⟨.endValue, by simp [conts, delta, stateLit, goTo], fun c _ => rfl⟩) (fun d' => by simp [litResult])
 
-theorem spec_str (pf : Bytes → UInt64) {b : Bytes} (hb : StrBody b) (hq : (unquote (quote b)).isSome = true) :
-    SpecVal pf (quote b) (.str (strDen b)) := by
+theorem spec_str (pf : Bytes → UInt64) (n : Nat) {b : Bytes} (hb : StrBody b) (hq : (unquote (quote b)).isSome = true) :
+    SpecVal pf n (quote b) (.str (strDen b)) := by
   have hu : unquote (0x22 :: (b ++ [0x22])) = some (strDen b) := by
     unfold strDen
     cases h : unquote (quote b) with
     | none => rw [h] at hq; simp at hq
     | some s => simpa [quote] using h
-  exact spec_scalar pf 0x22 (b ++ [0x22]) _ .inString (fun σ => by simp [stateBeginValue, isSpace])
+  exact spec_scalar pf n 0x22 (b ++ [0x22]) _ .inString (fun σ => by simp [stateBeginValue, isSpace])
     (fun σ => ⟨.endValue, conts_strBody σ hb, fun c _ => rfl⟩) (fun d' => by simp [litResult, hu])
 
-theorem spec_num (pf : Bytes → UInt64) {t : Bytes} (hn : NumTok t) : SpecVal pf t (number pf (t.any isFloatByte) t) := by
+theorem spec_num (pf : Bytes → UInt64) (n : Nat) {t : Bytes} (hn : NumTok t) :
+    SpecVal pf n t (number pf (t.any isFloatByte) t) := by
   cases hn with
   | neg hrest =>
-    refine spec_scalar pf 0x2D _ _ .neg (fun σ => by simp [stateBeginValue, isSpace]) (fun σ => ?_) (fun d' => ?_)
+    refine spec_scalar pf n 0x2D _ _ .neg (fun σ => by simp [stateBeginValue, isSpace]) (fun σ => ?_) (fun d' => ?_)
     · obtain ⟨st', h1, h2⟩ := conts_numRest σ hrest
       exact ⟨st', h1, fun c hc => final_follow st' σ c h2 hc⟩
     · simp [litResult, isFloatByte]
   | zero hrest =>
-    refine spec_scalar pf 0x30 _ _ .s0 (fun σ => by simp [stateBeginValue, isSpace]) (fun σ => ?_) (fun d' => ?_)
+    refine spec_scalar pf n 0x30 _ _ .s0 (fun σ => by simp [stateBeginValue, isSpace]) (fun σ => ?_) (fun d' => ?_)
     · obtain ⟨st', h1, h2⟩ := conts_numRest σ hrest
       exact ⟨st', h1, fun c hc => final_follow st' σ c h2 hc⟩
     · simp [litResult, isFloatByte]
@@ -347,7 +379,7 @@ theorem spec_num (pf : Bytes → UInt64) {t : Bytes} (hn : NumTok t) : SpecVal p
     have hne : d0 ≠ 0x7B ∧ d0 ≠ 0x5B ∧ d0 ≠ 0x22 ∧ d0 ≠ 0x2D ∧ d0 ≠ 0x30 ∧ d0 ≠ 0x74 ∧ d0 ≠ 0x66 ∧ d0 ≠ 0x6E := by
       refine ⟨?_, ?_, ?_, ?_, ?_, ?_, ?_, ?_⟩ <;> (intro e; subst e; simp at hd')
     obtain ⟨n1, n2, n3, n4, n5, n6, n7, n8⟩ := hne
-    refine spec_scalar pf d0 _ _ .s1 (fun σ => by simp [stateBeginValue, hs, n1, n2, n3, n4, n5, n6, n7, n8, hd])
+    refine spec_scalar pf n d0 _ _ .s1 (fun σ => by simp [stateBeginValue, hs, n1, n2, n3, n4, n5, n6, n7, n8, hd])
       (fun σ => ?_) (fun d' => ?_)
     · obtain ⟨st', h1, h2⟩ := conts_numRest σ hrest
       exact ⟨st', h1, fun c hc => final_follow st' σ c h2 hc⟩
@@ -360,65 +392,68 @@ theorem spec_num (pf : Bytes → UInt64) {t : Bytes} (hn : NumTok t) : SpecVal p
 
 /-! ### arrays and objects -/
 
-theorem spec_array (pf : Bytes → UInt64) (body : Bytes) (xs : JList)
-    (h : ∀ (σ : List PS) (rest : Bytes) (f : Nat) (d : DState), 2 * body.length + 1 ≤ f →
+theorem spec_array (pf : Bytes → UInt64) (n : Nat) (body : Bytes) (xs : JList)
+    (h : ∀ (σ : List PS) (rest : Bytes) (f : Nat) (d : DState), σ.length + 1 + n ≤ maxNestingDepth → 2 * body.length + 1 ≤ f →
       Sees d .beginValueOrEmpty (.arr :: σ) (body ++ 0x5D :: rest) 0x5B .beginArray →
       ∃ d', arrayLoop pf f d = .ok xs d' ∧ Sees d' (popTo σ .endArray).step (popTo σ .endArray).stack rest 0x5D .endArray) :
-    SpecVal pf (0x5B :: body ++ [0x5D]) (.arr xs) := by
-  have hb : ∀ σ, stateBeginValue σ 0x5B = goTo .beginValueOrEmpty (.arr :: σ) .beginArray := by
-    intro σ; simp [stateBeginValue, isSpace]
+    SpecVal pf (n + 1) (0x5B :: body ++ [0x5D]) (.arr xs) := by
+  have hb : ∀ σ : List PS, σ.length < maxNestingDepth →
+      stateBeginValue σ 0x5B = goTo .beginValueOrEmpty (.arr :: σ) .beginArray := by
+    intro σ hσ; simp [stateBeginValue, isSpace, pushTo_ok _ _ _ _ hσ]
   constructor
-  · intro c0 t' he σ c rest f d _ hne hfuel hs
+  · intro c0 t' he σ c rest f d hdep _ hne hfuel hs
     simp only [List.cons_append, List.cons.injEq] at he
     obtain ⟨rfl, rfl⟩ := he
-    rw [hb σ] at hs
+    rw [hb σ (by omega)] at hs
     simp only [goTo, List.append_assoc, List.cons_append, List.nil_append] at hs
     simp only [List.length_cons, List.length_append, List.length_nil] at hfuel
     obtain ⟨f', rfl⟩ : ∃ f', f = f' + 1 := ⟨f - 1, by omega⟩
-    obtain ⟨d', ha, hd'⟩ := h σ (c :: rest) f' d (by omega) hs
+    obtain ⟨d', ha, hd'⟩ := h σ (c :: rest) f' d (by omega) (by omega) hs
     refine ⟨d'.scanNext, by simp [value, hs.op, ha], ?_⟩
     exact scanNext_after_close d' σ .endArray c rest _ _ hd' hne
-  · intro c0 t' he σ f d hfuel hs
+  · intro c0 t' he σ f d hdep hfuel hs
     simp only [List.cons_append, List.cons.injEq] at he
     obtain ⟨rfl, rfl⟩ := he
-    rw [hb σ] at hs
+    rw [hb σ (by omega)] at hs
     simp only [goTo] at hs
     simp only [List.length_cons, List.length_append, List.length_nil] at hfuel
     obtain ⟨f', rfl⟩ : ∃ f', f = f' + 1 := ⟨f - 1, by omega⟩
-    obtain ⟨d', ha, _⟩ := h σ [] f' d (by omega) hs
+    obtain ⟨d', ha, _⟩ := h σ [] f' d (by omega) (by omega) hs
     exact ⟨d'.scanNext, by simp [value, hs.op, ha]⟩
 
-theorem spec_object (pf : Bytes → UInt64) (body : Bytes) (es : JMems)
-    (h : ∀ (σ : List PS) (rest : Bytes) (f : Nat) (d : DState), 2 * body.length + 1 ≤ f →
+theorem spec_object (pf : Bytes → UInt64) (n : Nat) (body : Bytes) (es : JMems)
+    (h : ∀ (σ : List PS) (rest : Bytes) (f : Nat) (d : DState), σ.length + 1 + n ≤ maxNestingDepth → 2 * body.length + 1 ≤ f →
       Sees d .beginStringOrEmpty (.objKey :: σ) (body ++ 0x7D :: rest) 0x7B .beginObject →
       ∃ d', objectLoop pf f d = .ok es d' ∧ Sees d' (popTo σ .endObject).step (popTo σ .endObject).stack rest 0x7D .endObject) :
-    SpecVal pf (0x7B :: body ++ [0x7D]) (.obj (insertAll es .nil)) := by
-  have hb : ∀ σ, stateBeginValue σ 0x7B = goTo .beginStringOrEmpty (.objKey :: σ) .beginObject := by
-    intro σ; simp [stateBeginValue, isSpace]
+    SpecVal pf (n + 1) (0x7B :: body ++ [0x7D]) (.obj (insertAll es .nil)) := by
+  have hb : ∀ σ : List PS, σ.length < maxNestingDepth →
+      stateBeginValue σ 0x7B = goTo .beginStringOrEmpty (.objKey :: σ) .beginObject := by
+    intro σ hσ; simp [stateBeginValue, isSpace, pushTo_ok _ _ _ _ hσ]
   constructor
-  · intro c0 t' he σ c rest f d _ hne hfuel hs
+  · intro c0 t' he σ c rest f d hdep _ hne hfuel hs
     simp only [List.cons_append, List.cons.injEq] at he
     obtain ⟨rfl, rfl⟩ := he
-    rw [hb σ] at hs
+    rw [hb σ (by omega)] at hs
     simp only [goTo, List.append_assoc, List.cons_append, List.nil_append] at hs
     simp only [List.length_cons, List.length_append, List.length_nil] at hfuel
     obtain ⟨f', rfl⟩ : ∃ f', f = f' + 1 := ⟨f - 1, by omega⟩
-    obtain ⟨d', ha, hd'⟩ := h σ (c :: rest) f' d (by omega) hs
+    obtain ⟨d', ha, hd'⟩ := h σ (c :: rest) f' d (by omega) (by omega) hs
     refine ⟨d'.scanNext, by simp [value, hs.op, ha], ?_⟩
     exact scanNext_after_close d' σ .endObject c rest _ _ hd' hne
-  · intro c0 t' he σ f d hfuel hs
+  · intro c0 t' he σ f d hdep hfuel hs
     simp only [List.cons_append, List.cons.injEq] at he
     obtain ⟨rfl, rfl⟩ := he
-    rw [hb σ] at hs
+    rw [hb σ (by omega)] at hs
     simp only [goTo] at hs
     simp only [List.length_cons, List.length_append, List.length_nil] at hfuel
     obtain ⟨f', rfl⟩ : ∃ f', f = f' + 1 := ⟨f - 1, by omega⟩
-    obtain ⟨d', ha, _⟩ := h σ [] f' d (by omega) hs
+    obtain ⟨d', ha, _⟩ := h σ [] f' d (by omega) (by omega) hs
     exact ⟨d'.scanNext, by simp [value, hs.op, ha]⟩
 
-theorem spec_arrEmpty (pf : Bytes → UInt64) {w : Bytes} (hw : WS w) : SpecVal pf (0x5B :: w ++ [0x5D]) (.arr .nil) := by
+theorem spec_arrEmpty (pf : Bytes → UInt64) (n : Nat) {w : Bytes} (hw : WS w) :
+    SpecVal pf (n + 1) (0x5B :: w ++ [0x5D]) (.arr .nil) := by
   apply spec_array
-  intro σ rest f d hfuel hs
+  intro σ rest f d _ hfuel hs
   obtain ⟨f', rfl⟩ : ∃ f', f = f' + 1 := ⟨f - 1, by omega⟩
   have hd : delta .beginValueOrEmpty (.arr :: σ) 0x5D = popTo σ .endArray := by
     simp [delta, stateBeginValueOrEmpty, stateEndValue, isSpace]
@@ -432,10 +467,11 @@ theorem spec_arrEmpty (pf : Bytes → UInt64) {w : Bytes} (hw : WS w) : SpecVal 
   refine ⟨_, ?_, h1'⟩
   simp only [arrayLoop, h1'.op, if_true]
 
-theorem spec_objEmpty (pf : Bytes → UInt64) {w : Bytes} (hw : WS w) : SpecVal pf (0x7B :: w ++ [0x7D]) (.obj .nil) := by
-  have := spec_object pf w .nil ?_
+theorem spec_objEmpty (pf : Bytes → UInt64) (n : Nat) {w : Bytes} (hw : WS w) :
+    SpecVal pf (n + 1) (0x7B :: w ++ [0x7D]) (.obj .nil) := by
+  have := spec_object pf n w .nil ?_
   · simpa [insertAll] using this
-  intro σ rest f d hfuel hs
+  intro σ rest f d _ hfuel hs
   obtain ⟨f', rfl⟩ : ∃ f', f = f' + 1 := ⟨f - 1, by omega⟩
   have hd : delta .beginStringOrEmpty (.objKey :: σ) 0x7D = popTo σ .endObject := by
     simp [delta, stateBeginStringOrEmpty, stateEndValue, isSpace]
@@ -451,15 +487,15 @@ theorem spec_objEmpty (pf : Bytes → UInt64) {w : Bytes} (hw : WS w) : SpecVal 
 
 /-- One element inside an array: skip the white space, read the value, skip the white space after
 it; the decoder then sits on the punctuation byte `p`. -/
-theorem elem_step (pf : Bytes → UInt64) {w1 t w2 : Bytes} {v : J} (hw1 : WS w1) (hv : Val pf t v) (hw2 : WS w2)
-    (ih : SpecVal pf t v) (σ : List PS) (p : UInt8) (rest : Bytes) (f' : Nat) (d : DState) (st0 : Step) (l : UInt8) (op0 : Op)
-    (hst0 : st0 = .beginValue ∨ st0 = .beginValueOrEmpty) (hp : Follow p)
+theorem elem_step (pf : Bytes → UInt64) {n : Nat} {w1 t w2 : Bytes} {v : J} (hw1 : WS w1) (hv : ValD pf n t v) (hw2 : WS w2)
+    (ih : SpecVal pf n t v) (σ : List PS) (p : UInt8) (rest : Bytes) (f' : Nat) (d : DState) (st0 : Step) (l : UInt8) (op0 : Op)
+    (hdep : σ.length + 1 + n ≤ maxNestingDepth) (hst0 : st0 = .beginValue ∨ st0 = .beginValueOrEmpty) (hp : Follow p)
     (hop : (stateEndValue (.arr :: σ) p).op ≠ .skipSpace) (hne : (stateEndValue (.arr :: σ) p).step ≠ .error)
     (hfuel : 2 * t.length ≤ f') (hs : Sees d st0 (.arr :: σ) (w1 ++ (t ++ (w2 ++ p :: rest))) l op0) :
     ∃ d2, value pf f' (d.scanWhile .skipSpace).2.2 = .ok v d2 ∧ (d.scanWhile .skipSpace).2.2.opcode ≠ .endArray ∧
       SeesAfter (if d2.opcode = .skipSpace then (d2.scanWhile .skipSpace).2.2 else d2) (.arr :: σ) p rest := by
-  obtain ⟨c0, t', rfl, hc0⟩ := val_start hv
-  obtain ⟨b1, b2, b3, _⟩ := valStart_begin (.arr :: σ) c0 hc0
+  obtain ⟨c0, t', rfl, hc0⟩ := val_start hv.toVal
+  obtain ⟨b1, b2, b3, _⟩ := valStart_begin (.arr :: σ) c0 hc0 (valD_room hv (.arr :: σ) (by simp only [List.length_cons]; omega))
   have hdel : delta st0 (.arr :: σ) c0 = stateBeginValue (.arr :: σ) c0 := by
     rcases hst0 with rfl | rfl
     · rfl
@@ -476,7 +512,7 @@ theorem elem_step (pf : Bytes → UInt64) {w1 t w2 : Bytes} {v : J} (hw1 : WS w1
     unfold DState.scanWhile; rw [hs.rest]; exact this
   obtain ⟨c, rest0, hcr, hfc, hnec⟩ := next_byte .arr σ w2 hw2 p rest hp hne
   rw [hcr] at h1
-  obtain ⟨d2, hval, hd2⟩ := ih.1 c0 t' rfl (.arr :: σ) c rest0 f' _ hfc hnec hfuel h1
+  obtain ⟨d2, hval, hd2⟩ := ih.1 c0 t' rfl (.arr :: σ) c rest0 f' _ (by simp only [List.length_cons]; omega) hfc hnec hfuel h1
   refine ⟨d2, hval, by rw [h1.op]; exact b3, ?_⟩
   apply after_value_ws .arr σ w2 hw2 p rest d2 hop hne
   intro c' rest0' he
@@ -484,44 +520,44 @@ theorem elem_step (pf : Bytes → UInt64) {w1 t w2 : Bytes} {v : J} (hw1 : WS w1
   cases he
   exact hd2
 
-theorem spec_elems_one (pf : Bytes → UInt64) {w1 t w2 : Bytes} {v : J} (hw1 : WS w1) (hv : Val pf t v) (hw2 : WS w2)
-    (ih : SpecVal pf t v) : SpecElems pf (w1 ++ t ++ w2) (.cons v .nil) := by
-  intro σ rest f d st0 l op0 hst0 hfuel hs
+theorem spec_elems_one (pf : Bytes → UInt64) {n : Nat} {w1 t w2 : Bytes} {v : J} (hw1 : WS w1) (hv : ValD pf n t v) (hw2 : WS w2)
+    (ih : SpecVal pf n t v) : SpecElems pf n (w1 ++ t ++ w2) (.cons v .nil) := by
+  intro σ rest f d st0 l op0 hdep hst0 hfuel hs
   simp only [List.append_assoc] at hs
   simp only [List.length_append] at hfuel
   obtain ⟨f', rfl⟩ : ∃ f', f = f' + 1 := ⟨f - 1, by omega⟩
   have hpop : stateEndValue (.arr :: σ) 0x5D = popTo σ .endArray := by simp [stateEndValue, isSpace]
   have hopp : (popTo σ .endArray).op = .endArray := by cases σ <;> simp [popTo, goTo]
-  obtain ⟨d2, hval, hne1, h3⟩ := elem_step pf hw1 hv hw2 ih σ 0x5D rest f' d st0 l op0 hst0 follow_punct.1
+  obtain ⟨d2, hval, hne1, h3⟩ := elem_step pf hw1 hv hw2 ih σ 0x5D rest f' d st0 l op0 hdep hst0 follow_punct.1
     (by rw [hpop, hopp]; decide) (by rw [hpop]; exact popTo_ne _ _) (by omega) hs
   unfold SeesAfter at h3
   rw [hpop, hopp] at h3
   refine ⟨_, ?_, h3⟩
   simp only [arrayLoop, hne1, if_false, hval, h3.op, if_true]
 
-theorem spec_elems_more (pf : Bytes → UInt64) {w1 t w2 : Bytes} {v : J} {e : Bytes} {xs : JList} (hw1 : WS w1)
-    (hv : Val pf t v) (hw2 : WS w2) (ih : SpecVal pf t v) (ihe : SpecElems pf e xs) :
-    SpecElems pf (w1 ++ t ++ w2 ++ 0x2C :: e) (.cons v xs) := by
-  intro σ rest f d st0 l op0 hst0 hfuel hs
+theorem spec_elems_more (pf : Bytes → UInt64) {n : Nat} {w1 t w2 : Bytes} {v : J} {e : Bytes} {xs : JList} (hw1 : WS w1)
+    (hv : ValD pf n t v) (hw2 : WS w2) (ih : SpecVal pf n t v) (ihe : SpecElems pf n e xs) :
+    SpecElems pf n (w1 ++ t ++ w2 ++ 0x2C :: e) (.cons v xs) := by
+  intro σ rest f d st0 l op0 hdep hst0 hfuel hs
   simp only [List.append_assoc, List.cons_append] at hs
   simp only [List.length_append, List.length_cons] at hfuel
   obtain ⟨f', rfl⟩ : ∃ f', f = f' + 1 := ⟨f - 1, by omega⟩
   have hcomma : stateEndValue (.arr :: σ) 0x2C = goTo .beginValue (.arr :: σ) .arrayValue := by simp [stateEndValue, isSpace]
-  obtain ⟨d2, hval, hne1, h3⟩ := elem_step pf hw1 hv hw2 ih σ 0x2C (e ++ 0x5D :: rest) f' d st0 l op0 hst0 follow_punct.2.2.1
+  obtain ⟨d2, hval, hne1, h3⟩ := elem_step pf hw1 hv hw2 ih σ 0x2C (e ++ 0x5D :: rest) f' d st0 l op0 hdep hst0 follow_punct.2.2.1
     (by rw [hcomma]; simp [goTo]) (by rw [hcomma]; simp [goTo]) (by omega) hs
   unfold SeesAfter at h3
   rw [hcomma] at h3
   simp only [goTo] at h3
-  obtain ⟨d4, hloop, hd4⟩ := ihe σ rest f' _ .beginValue _ _ (.inl rfl) (by omega) h3
+  obtain ⟨d4, hloop, hd4⟩ := ihe σ rest f' _ .beginValue _ _ hdep (.inl rfl) (by omega) h3
   refine ⟨d4, ?_, hd4⟩
   have ho1 : ¬ (Op.arrayValue = Op.endArray) := by decide
   simp only [arrayLoop, hne1, if_false, hval, h3.op, ho1, ne_eq, not_true_eq_false, hloop]
 
 /-- One member inside an object, up to the punctuation byte `p` after its value. -/
-theorem member_step (pf : Bytes → UInt64) {w1 k w2 w3 t w4 : Bytes} {v : J} (hw1 : WS w1) (hk : StrBody k) (hw2 : WS w2)
-    (hw3 : WS w3) (hv : Val pf t v) (hw4 : WS w4) (ih : SpecVal pf t v) (hq : (unquote (quote k)).isSome = true)
+theorem member_step (pf : Bytes → UInt64) {n : Nat} {w1 k w2 w3 t w4 : Bytes} {v : J} (hw1 : WS w1) (hk : StrBody k) (hw2 : WS w2)
+    (hw3 : WS w3) (hv : ValD pf n t v) (hw4 : WS w4) (ih : SpecVal pf n t v) (hq : (unquote (quote k)).isSome = true)
     (σ : List PS) (p : UInt8) (rest : Bytes) (f' : Nat) (d : DState) (st0 : Step) (l : UInt8) (op0 : Op)
-    (hst0 : st0 = .beginString ∨ st0 = .beginStringOrEmpty) (hp : Follow p)
+    (hdep : σ.length + 1 + n ≤ maxNestingDepth) (hst0 : st0 = .beginString ∨ st0 = .beginStringOrEmpty) (hp : Follow p)
     (hop : (stateEndValue (.objVal :: σ) p).op ≠ .skipSpace) (hne : (stateEndValue (.objVal :: σ) p).step ≠ .error)
     (hfuel : 2 * t.length ≤ f')
     (hs : Sees d st0 (.objKey :: σ) (w1 ++ 0x22 :: (k ++ 0x22 :: (w2 ++ 0x3A :: (w3 ++ (t ++ (w4 ++ p :: rest)))))) l op0) :
@@ -586,8 +622,8 @@ theorem member_step (pf : Bytes → UInt64) {w1 k w2 w3 t w4 : Bytes} {v : J} (h
   generalize (if d2.opcode = .skipSpace then (d2.scanWhile .skipSpace).2.2 else d2) = d3 at h3 ⊢
   simp only [h3.op, ne_eq, not_true_eq_false, if_false]
   -- the value
-  obtain ⟨c0, t', rfl, hc0⟩ := val_start hv
-  obtain ⟨b1, b2, _, _⟩ := valStart_begin (.objVal :: σ) c0 hc0
+  obtain ⟨c0, t', rfl, hc0⟩ := val_start hv.toVal
+  obtain ⟨b1, b2, _, _⟩ := valStart_begin (.objVal :: σ) c0 hc0 (valD_room hv (.objVal :: σ) (by simp only [List.length_cons]; omega))
   have h4 : Sees (d3.scanWhile .skipSpace).2.2 (stateBeginValue (.objVal :: σ) c0).step
       (stateBeginValue (.objVal :: σ) c0).stack (t' ++ (w4 ++ p :: rest)) c0 (stateBeginValue (.objVal :: σ) c0).op := by
     have := scanWhile_ws .beginValue (.objVal :: σ) (slo_beginValue _) w3 hw3 c0 (t' ++ (w4 ++ p :: rest)) b2 b1
@@ -596,7 +632,7 @@ theorem member_step (pf : Bytes → UInt64) {w1 k w2 w3 t w4 : Bytes} {v : J} (h
   generalize (d3.scanWhile .skipSpace).2.2 = d4 at h4 ⊢
   obtain ⟨c, rest0, hcr, hfc, hnec⟩ := next_byte .objVal σ w4 hw4 p rest hp hne
   rw [hcr] at h4
-  obtain ⟨d5, hval, hd5⟩ := ih.1 c0 t' rfl (.objVal :: σ) c rest0 f' d4 hfc hnec hfuel h4
+  obtain ⟨d5, hval, hd5⟩ := ih.1 c0 t' rfl (.objVal :: σ) c rest0 f' d4 (by simp only [List.length_cons]; omega) hfc hnec hfuel h4
   have h6 := after_value_ws .objVal σ w4 hw4 p rest d5 hop hne (by
     intro c' rest0' he
     rw [hcr] at he
@@ -605,16 +641,16 @@ theorem member_step (pf : Bytes → UInt64) {w1 k w2 w3 t w4 : Bytes} {v : J} (h
   simp only [hval]
   exact ⟨_, h6, rfl⟩
 
-theorem spec_members_one (pf : Bytes → UInt64) {w1 k w2 w3 t w4 : Bytes} {v : J} (hw1 : WS w1) (hk : StrBody k) (hw2 : WS w2)
-    (hw3 : WS w3) (hv : Val pf t v) (hw4 : WS w4) (ih : SpecVal pf t v) (hq : (unquote (quote k)).isSome = true) :
-    SpecMembers pf (w1 ++ quote k ++ w2 ++ 0x3A :: w3 ++ t ++ w4) (.cons (strDen k) v .nil) := by
-  intro σ rest f d st0 l op0 hst0 hfuel hs
+theorem spec_members_one (pf : Bytes → UInt64) {n : Nat} {w1 k w2 w3 t w4 : Bytes} {v : J} (hw1 : WS w1) (hk : StrBody k) (hw2 : WS w2)
+    (hw3 : WS w3) (hv : ValD pf n t v) (hw4 : WS w4) (ih : SpecVal pf n t v) (hq : (unquote (quote k)).isSome = true) :
+    SpecMembers pf n (w1 ++ quote k ++ w2 ++ 0x3A :: w3 ++ t ++ w4) (.cons (strDen k) v .nil) := by
+  intro σ rest f d st0 l op0 hdep hst0 hfuel hs
   simp only [quote, List.append_assoc, List.cons_append, List.nil_append] at hs
   simp only [List.length_append, List.length_cons] at hfuel
   obtain ⟨f', rfl⟩ : ∃ f', f = f' + 1 := ⟨f - 1, by omega⟩
   have hpop : stateEndValue (.objVal :: σ) 0x7D = popTo σ .endObject := by simp [stateEndValue, isSpace]
   have hopp : (popTo σ .endObject).op = .endObject := by cases σ <;> simp [popTo, goTo]
-  obtain ⟨d6, h6, hloop⟩ := member_step pf hw1 hk hw2 hw3 hv hw4 ih hq σ 0x7D rest f' d st0 l op0 hst0 follow_punct.2.1
+  obtain ⟨d6, h6, hloop⟩ := member_step pf hw1 hk hw2 hw3 hv hw4 ih hq σ 0x7D rest f' d st0 l op0 hdep hst0 follow_punct.2.1
     (by rw [hpop, hopp]; decide) (by rw [hpop]; exact popTo_ne _ _) (by omega) hs
   unfold SeesAfter at h6
   rw [hpop, hopp] at h6
@@ -622,47 +658,48 @@ theorem spec_members_one (pf : Bytes → UInt64) {w1 k w2 w3 t w4 : Bytes} {v : 
   rw [hloop]
   simp only [h6.op, if_true]
 
-theorem spec_members_more (pf : Bytes → UInt64) {w1 k w2 w3 t w4 : Bytes} {v : J} {m : Bytes} {es : JMems} (hw1 : WS w1)
-    (hk : StrBody k) (hw2 : WS w2) (hw3 : WS w3) (hv : Val pf t v) (hw4 : WS w4) (ih : SpecVal pf t v)
-    (ihm : SpecMembers pf m es) (hq : (unquote (quote k)).isSome = true) :
-    SpecMembers pf (w1 ++ quote k ++ w2 ++ 0x3A :: w3 ++ t ++ w4 ++ 0x2C :: m) (.cons (strDen k) v es) := by
-  intro σ rest f d st0 l op0 hst0 hfuel hs
+theorem spec_members_more (pf : Bytes → UInt64) {n : Nat} {w1 k w2 w3 t w4 : Bytes} {v : J} {m : Bytes} {es : JMems} (hw1 : WS w1)
+    (hk : StrBody k) (hw2 : WS w2) (hw3 : WS w3) (hv : ValD pf n t v) (hw4 : WS w4) (ih : SpecVal pf n t v)
+    (ihm : SpecMembers pf n m es) (hq : (unquote (quote k)).isSome = true) :
+    SpecMembers pf n (w1 ++ quote k ++ w2 ++ 0x3A :: w3 ++ t ++ w4 ++ 0x2C :: m) (.cons (strDen k) v es) := by
+  intro σ rest f d st0 l op0 hdep hst0 hfuel hs
   simp only [quote, List.append_assoc, List.cons_append, List.nil_append] at hs
   simp only [List.length_append, List.length_cons] at hfuel
   obtain ⟨f', rfl⟩ : ∃ f', f = f' + 1 := ⟨f - 1, by omega⟩
   have hcomma : stateEndValue (.objVal :: σ) 0x2C = goTo .beginString (.objKey :: σ) .objectValue := by
     simp [stateEndValue, isSpace]
-  obtain ⟨d6, h6, hloop⟩ := member_step pf hw1 hk hw2 hw3 hv hw4 ih hq σ 0x2C (m ++ 0x7D :: rest) f' d st0 l op0 hst0
+  obtain ⟨d6, h6, hloop⟩ := member_step pf hw1 hk hw2 hw3 hv hw4 ih hq σ 0x2C (m ++ 0x7D :: rest) f' d st0 l op0 hdep hst0
     follow_punct.2.2.1 (by rw [hcomma]; simp [goTo]) (by rw [hcomma]; simp [goTo]) (by omega) hs
   unfold SeesAfter at h6
   rw [hcomma] at h6
   simp only [goTo] at h6
-  obtain ⟨d7, hl7, hd7⟩ := ihm σ rest f' d6 .beginString _ _ (.inl rfl) (by omega) h6
+  obtain ⟨d7, hl7, hd7⟩ := ihm σ rest f' d6 .beginString _ _ hdep (.inl rfl) (by omega) h6
   refine ⟨d7, ?_, hd7⟩
   rw [hloop]
   simp only [h6.op, reduceCtorEq, if_false, ne_eq, not_true_eq_false, hl7]
 
-/-- **Grammar ⇒ decoder.** On every text of the grammar `value`/`arrayLoop`/`objectLoop` succeed
-(no phase panic, enough fuel) with the value the text denotes, provided string tokens unquote. -/
+/-- **Grammar ⇒ decoder.** On every text of the grammar nested no deeper than the parse stack leaves
+room for, `value`/`arrayLoop`/`objectLoop` succeed (no phase panic, enough fuel) with the value the
+text denotes, provided string tokens unquote. -/
 theorem spec_all (pf : Bytes → UInt64) (hq : ∀ b, StrBody b → (unquote (quote b)).isSome = true) :
-    (∀ {t v}, Val pf t v → SpecVal pf t v) ∧ (∀ {e xs}, Elems pf e xs → SpecElems pf e xs) ∧
-    (∀ {m es}, Members pf m es → SpecMembers pf m es) := by
-  apply grammar_induction (P1 := SpecVal pf) (P2 := SpecElems pf) (P3 := SpecMembers pf)
-  · exact spec_null pf
-  · exact spec_true pf
-  · exact spec_false pf
-  · intro t hn; exact spec_num pf hn
-  · intro b hb; exact spec_str pf hb (hq b hb)
-  · intro w hw; exact spec_arrEmpty pf hw
-  · intro e xs _ ih
-    exact spec_array pf e xs (fun σ rest f d hf hs => ih σ rest f d .beginValueOrEmpty _ _ (.inr rfl) hf hs)
-  · intro w hw; exact spec_objEmpty pf hw
-  · intro m es _ ih
-    exact spec_object pf m es (fun σ rest f d hf hs => ih σ rest f d .beginStringOrEmpty _ _ (.inr rfl) hf hs)
-  · intro w1 t w2 v hw1 hv hw2 ih; exact spec_elems_one pf hw1 hv hw2 ih
-  · intro w1 t w2 v e xs hw1 hv hw2 _ ih ihe; exact spec_elems_more pf hw1 hv hw2 ih ihe
-  · intro w1 k w2 w3 t w4 v hw1 hk hw2 hw3 hv hw4 ih; exact spec_members_one pf hw1 hk hw2 hw3 hv hw4 ih (hq k hk)
-  · intro w1 k w2 w3 t w4 v m es hw1 hk hw2 hw3 hv hw4 _ ih ihm
+    (∀ {n t v}, ValD pf n t v → SpecVal pf n t v) ∧ (∀ {n e xs}, ElemsD pf n e xs → SpecElems pf n e xs) ∧
+    (∀ {n m es}, MembersD pf n m es → SpecMembers pf n m es) := by
+  apply grammarD_induction (P1 := SpecVal pf) (P2 := SpecElems pf) (P3 := SpecMembers pf)
+  · intro n; exact spec_null pf n
+  · intro n; exact spec_true pf n
+  · intro n; exact spec_false pf n
+  · intro n t hn; exact spec_num pf n hn
+  · intro n b hb; exact spec_str pf n hb (hq b hb)
+  · intro n w hw; exact spec_arrEmpty pf n hw
+  · intro n e xs _ ih
+    exact spec_array pf n e xs (fun σ rest f d hd hf hs => ih σ rest f d .beginValueOrEmpty _ _ hd (.inr rfl) hf hs)
+  · intro n w hw; exact spec_objEmpty pf n hw
+  · intro n m es _ ih
+    exact spec_object pf n m es (fun σ rest f d hd hf hs => ih σ rest f d .beginStringOrEmpty _ _ hd (.inr rfl) hf hs)
+  · intro n w1 t w2 v hw1 hv hw2 ih; exact spec_elems_one pf hw1 hv hw2 ih
+  · intro n w1 t w2 v e xs hw1 hv hw2 _ ih ihe; exact spec_elems_more pf hw1 hv hw2 ih ihe
+  · intro n w1 k w2 w3 t w4 v hw1 hk hw2 hw3 hv hw4 ih; exact spec_members_one pf hw1 hk hw2 hw3 hv hw4 ih (hq k hk)
+  · intro n w1 k w2 w3 t w4 v m es hw1 hk hw2 hw3 hv hw4 _ ih ihm
     exact spec_members_more pf hw1 hk hw2 hw3 hv hw4 ih ihm (hq k hk)
 
 /-! ### `Decode` on a text of the grammar -/
@@ -670,14 +707,14 @@ theorem spec_all (pf : Bytes → UInt64) (hq : ∀ b, StrBody b → (unquote (qu
 theorem clean_reset (s : Scanner) : Clean s.reset ∧ s.reset.step = .beginValue ∧ s.reset.stack = [] := by
   simp [Scanner.reset, Clean]
 
-/-- **Grammar ⇒ `Decode`.** A JSON text decodes — no syntax error, no phase panic, within the fuel
-`decode` provides — to the value it denotes. -/
-theorem decode_json (pf : Bytes → UInt64) {b : Bytes} {v : J} (h : Json pf b v) : decode pf b = .ok v := by
+/-- **Grammar ⇒ `Decode`.** A JSON text nested at most `maxNestingDepth` deep decodes — no syntax
+error, no phase panic, within the fuel `decode` provides — to the value it denotes. -/
+theorem decode_json (pf : Bytes → UInt64) {b : Bytes} {v : J} (h : JsonD pf maxNestingDepth b v) : decode pf b = .ok v := by
   have hacc := json_accB h
   obtain ⟨sc, hsc⟩ := (checkValid_iff_accB b).mpr hacc
   obtain ⟨w1, t, w2, rfl, hw1, hv, hw2⟩ := h
-  obtain ⟨c0, t', rfl, hc0⟩ := val_start hv
-  obtain ⟨b1, b2, _, _⟩ := valStart_begin [] c0 hc0
+  obtain ⟨c0, t', rfl, hc0⟩ := val_start hv.toVal
+  obtain ⟨b1, b2, _, _⟩ := valStart_begin [] c0 hc0 (fun _ => by decide)
   obtain ⟨hclean, hstep, hstack⟩ := clean_reset sc
   have hspec := (spec_all pf (fun b hb => Tengo.Proofs.JsonUnquote.unquote_total b hb)).1 hv
   have hsee := scanWhile_ws .beginValue [] (slo_beginValue []) w1 hw1 c0 (t' ++ w2) b2 b1 sc.reset 0 hclean hstep hstack
@@ -691,12 +728,12 @@ theorem decode_json (pf : Bytes → UInt64) {b : Bytes} {v : J} (h : Json pf b v
   cases w2 with
   | nil =>
     simp only [List.append_nil] at hsee hfuel ⊢
-    obtain ⟨d', hd'⟩ := hspec.2 c0 t' rfl [] _ _ hfuel hsee
+    obtain ⟨d', hd'⟩ := hspec.2 c0 t' rfl [] _ _ (by simp) hfuel hsee
     rw [hd']
   | cons c r =>
     have hc := hw2 c (by simp)
     have hne : (stateEndValue [] c).step ≠ .error := by simp [stateEndValue, stateEndTop, hc, goTo]
-    obtain ⟨d', hd', _⟩ := hspec.1 c0 t' rfl [] c r _ _ (follow_space c hc) hne hfuel hsee
+    obtain ⟨d', hd', _⟩ := hspec.1 c0 t' rfl [] c r _ _ (by simp) (follow_space c hc) hne hfuel hsee
     rw [hd']
 
 end Tengo.Proofs.JsonDecode
